@@ -14,15 +14,22 @@ Definition cmp_of (o : op) : option cmpop :=
 
 (* what the language reference says each operator does on two values of the given kinds
    (scalars, plus lists/tuples for repetition) *)
-Definition expected2 (o : op) (a b : kind) : dres :=
+(* does the configuration let dictionaries pass Iterable()? *)
+Definition iter_dicts (cf : cfg) : bool := match cf with CDefault => false | _ => true end.
+
+(* what can be concatenated / searched as an iterable *)
+Definition is_iter (cf : cfg) (k : kind) : bool :=
+  match k with KList | KTuple | KSet => true | KDict => iter_dicts cf | _ => false end.
+
+Definition expected2 (cf : cfg) (o : op) (a b : kind) : dres :=
   let num t := if is_num a && is_num b then DPayload t else DNoMatch in
   match o with
   | OAdd => match a, b with
             | KStr, KStr => DPayload PStrConcat
-            | (KList | KTuple), (KList | KTuple) => DPayload PSeqConcat
-            | _, _ => num PNumAdd
+            | KDict, KDict => DPayload PDictAdd
+            | _, _ => if is_iter cf a && is_iter cf b then DPayload PSeqConcat else num PNumAdd
             end
-  | OSub => num PNumSub
+  | OSub => match a, b with KSet, KSet => DPayload PSetDiff | _, _ => num PNumSub end
   | OMul => match a, b with
             | KStr, KInt => DPayload PStrRep
             | KInt, KStr => DPayload PRepStr
@@ -40,14 +47,14 @@ Definition expected2 (o : op) (a b : kind) : dres :=
       | KNull, _ => DPayload (PNullRight c)
       | _, KNull => DPayload (PLeftNull c)
       | KStr, KStr => DPayload (PStrCmp c)
+      | KSet, KSet => DPayload (PSetCmp c)
       | _, _ => num (PNumCmp c)
       end
     | None => DNoMatch
     end
   | OIn => match a, b with
            | KStr, KStr => DPayload PStrIn
-           | _, (KList | KTuple) => DPayload PCollIn
-           | _, _ => DNoMatch
+           | _, _ => if is_iter cf b then DPayload PCollIn else DNoMatch
            end
   | OEq => DPayload PEq
   | ONeq => DPayload PNeq
@@ -62,8 +69,8 @@ Definition expected1 (o : op) (a : kind) : dres :=
   | _ => DNoMatch
   end.
 
-(* kinds the grid ranges over: the five scalar kinds and the two sequence kinds *)
-Definition grid_kinds : list kind := scalar_kinds ++ [KList; KTuple].
+(* kinds the grid ranges over: the five scalar kinds, the two sequence kinds, sets and dicts *)
+Definition grid_kinds : list kind := scalar_kinds ++ [KList; KTuple; KSet; KDict].
 
 Definition pairs {A B} (l : list A) (m : list B) : list (A * B) :=
   flat_map (fun a => map (fun b => (a, b)) m) l.
@@ -76,7 +83,7 @@ Qed.
 
 (* ---- the grid ---- *)
 Definition grid2_ok (cf : cfg) : bool :=
-  forallb (fun o => forallb (fun p => dres_eqb (dispatch (registry_of cf o) [fst p; snd p]) (expected2 o (fst p) (snd p)))
+  forallb (fun o => forallb (fun p => dres_eqb (dispatch (registry_of cf o) [fst p; snd p]) (expected2 cf o (fst p) (snd p)))
                             (pairs grid_kinds grid_kinds)) binary_ops.
 Definition grid1_ok (cf : cfg) : bool :=
   forallb (fun o => forallb (fun k => dres_eqb (dispatch (registry_of cf o) [k]) (expected1 o k)) grid_kinds) unary_ops.
@@ -87,7 +94,7 @@ Lemma grid1_checked : forall cf, grid1_ok cf = true.
 Proof. intros cf. destruct cf; vm_compute; reflexivity. Qed.
 
 Lemma dispatch_table2 : forall cf o a b, In o binary_ops -> In a grid_kinds -> In b grid_kinds ->
-  dispatch (registry_of cf o) [a; b] = expected2 o a b.
+  dispatch (registry_of cf o) [a; b] = expected2 cf o a b.
 Proof.
   intros cf o a b Ho Ha Hb. pose proof (grid2_checked cf) as G. unfold grid2_ok in G.
   rewrite forallb_forall in G. specialize (G o Ho). rewrite forallb_forall in G.
@@ -105,8 +112,14 @@ Qed.
 (* ---- at most one overload accepts any pair of kinds of the grid: the result cannot depend
    on the order in which the runner enumerates a layer, and the specialization rule is
    never needed ---- *)
+(* the one place where two overloads accept the same operands: dict + dict when dictionaries
+   count as iterables (combine_dicts and combine_lists; the former is the specialization and wins) *)
+Definition dict_add_case (cf : cfg) (o : op) (a b : kind) : bool :=
+  iter_dicts cf && match o, a, b with OAdd, KDict, KDict => true | _, _, _ => false end.
+
 Definition unique_ok (cf : cfg) : bool :=
-  forallb (fun o => forallb (fun p => Nat.leb (length (acceptors (registry_of cf o) [fst p; snd p])) 1)
+  forallb (fun o => forallb (fun p => Nat.leb (length (acceptors (registry_of cf o) [fst p; snd p])) 1
+                                      || dict_add_case cf o (fst p) (snd p))
                             (pairs grid_kinds grid_kinds)) binary_ops
   && forallb (fun o => forallb (fun k => Nat.leb (length (acceptors (registry_of cf o) [k])) 1) grid_kinds) unary_ops.
 
@@ -114,12 +127,13 @@ Lemma unique_checked : forall cf, unique_ok cf = true.
 Proof. intros cf. destruct cf; vm_compute; reflexivity. Qed.
 
 Lemma dispatch_unique2 : forall cf o a b, In o binary_ops -> In a grid_kinds -> In b grid_kinds ->
-  length (acceptors (registry_of cf o) [a; b]) <= 1.
+  length (acceptors (registry_of cf o) [a; b]) <= 1 \/ dict_add_case cf o a b = true.
 Proof.
   intros cf o a b Ho Ha Hb. pose proof (unique_checked cf) as G. unfold unique_ok in G.
   apply andb_prop in G. destruct G as [G _].
   rewrite forallb_forall in G. specialize (G o Ho). rewrite forallb_forall in G.
-  specialize (G (a, b) (in_pairs _ _ a b Ha Hb)). apply Nat.leb_le in G. exact G.
+  specialize (G (a, b) (in_pairs _ _ a b Ha Hb)). cbn [fst snd] in G.
+  apply orb_prop in G. destruct G as [G|G]; [left; apply Nat.leb_le; exact G | right; exact G].
 Qed.
 
 Lemma dispatch_unique1 : forall cf o a, In o unary_ops -> In a grid_kinds ->
